@@ -710,21 +710,32 @@ pub fn run_check<P: Prop>(prop: &P, opt: &Options) -> i32 {
     let mut exit = 0;
     let mut replay_paths = vec![];
     if !fresh.is_empty() {
-        // one report per distinct class, lowest run index first
-        let mut seen = HashSet::new();
+        // one report per distinct class, lowest run index first; a class whose first occurrence cannot be confirmed
+        // (it depended on what the process had executed before) gets two more tries at later occurrences
+        let mut seen: HashSet<String> = HashSet::new();
+        let mut tries: BTreeMap<String, u32> = BTreeMap::new();
+        let mut attempts = 0;
         let disk = format!("{}/shrink", root);
         let _ = std::fs::create_dir_all(&disk);
         for (idx, v) in fresh.iter() {
-            if !seen.insert(v.class.clone()) || seen.len() > 4 {
+            if seen.contains(&v.class) || seen.len() >= 4 || attempts >= 16 {
                 continue;
             }
+            let t = tries.entry(v.class.clone()).or_insert(0);
+            if *t >= 3 {
+                continue;
+            }
+            *t += 1;
+            attempts += 1;
             let case = case_for(*idx);
             let (small, steps) = shrink_case(prop, case, &v.class, &disk);
             let out = run_case(prop, &small, &disk, true);
             let viol = out.violations.iter().find(|x| x.class == v.class).cloned();
             let Some(viol) = viol else {
                 eprintln!("HARNESS-ERROR: violation of class {} at run_index={} did not reproduce in-process", v.class, idx);
-                exit = 2;
+                if exit == 0 {
+                    exit = 2;
+                }
                 continue;
             };
             let rf = ReplayFile {
@@ -753,15 +764,17 @@ pub fn run_check<P: Prop>(prop: &P, opt: &Options) -> i32 {
             let confirmed = matches!(&st, Ok(o) if o.status.code() == Some(1));
             if !confirmed {
                 eprintln!("HARNESS-ERROR: replay of {} in a fresh process did not reproduce the violation", path.display());
-                exit = 2;
+                if exit == 0 {
+                    exit = 2;
+                }
                 continue;
             }
+            seen.insert(v.class.clone());
             println!("violation: class={} run_index={} shrink_steps={} detail={}", viol.class, idx, steps, viol.detail);
             println!("VIOLATION property={} replay={}", id, path.display());
             replay_paths.push(path.display().to_string());
-            if exit == 0 {
-                exit = 1;
-            }
+            // a violation confirmed by a replay in a fresh process outweighs reports that could not be confirmed
+            exit = 1;
         }
         let _ = std::fs::remove_dir_all(&disk);
     }
@@ -776,7 +789,9 @@ pub fn run_check<P: Prop>(prop: &P, opt: &Options) -> i32 {
         }
         blind.extend(prop.post_check(&counters, opt.tier));
     }
-    if det_mismatch > 0 {
+    // runs that are not a function of their case: a harness error unless a violation was confirmed by a replay in a
+    // fresh process anyway (then that is the more useful report)
+    if det_mismatch > 0 && exit != 1 {
         exit = 2;
     }
     if !blind.is_empty() && exit == 0 {
